@@ -221,6 +221,26 @@ let merge_tool acc st ~(family : (string * string) list list) =
                while !continue do match Rd.c_iter_next it with Some e -> l := e :: !l | None -> continue := false done;
                Rd.c_iter_destroy it; Rd.c_reader_destroy r; Some (List.rev !l) end) in
   let spec = merged_spec family in
+  (* the model of the tool (model/ToolsMerge.v, theorems T04t): merger over the inputs' entries, every merged entry added to a
+     writer with the options the command line leaves; its file must be the tool's file byte for byte *)
+  (let comp_id = (match String.lowercase_ascii comp with "none" -> 0 | "snappy" -> 1 | "zlib" -> 2 | "lz4" -> 3 | "lz4hc" -> 4 | _ -> 5) in
+   let lvl = (if level = "" then dEFAULT_COMPRESSION_LEVEL else Scanf.sscanf level "-l %d " Wr.z_of_int) in
+   let o = { wo_comp = n_of_int comp_id; wo_level = lvl;
+             wo_block_size = clamp_block_size (if bs_env = "" && bs_arg = "" then mERGE_TOOL_DEFAULT_BLOCK_SIZE else n_of_int bs);
+             wo_interval = dEFAULT_BLOCK_RESTART_INTERVAL } in
+   let mf = (fun (_ : n list) (v0 : n list) (v1 : n list) -> if prefix = "join" then Some (v0 @ [ n_of_int 124 ] @ v1) else Some v0) in
+   (* the entries each input table holds: what its writer accepted *)
+   let accepted es = List.rev (snd (List.fold_left (fun (last, acc) (k, v) -> match last with Some l when compare k l <= 0 -> (last, acc) | _ -> (Some k, (k, v) :: acc)) (None, []) es)) in
+   let srcs = List.map (fun es -> List.map (fun (k, v) -> (nl_of_string k, nl_of_string v)) (accepted es)) family in
+   let real = (try let ic = open_in_bin out in let n = in_channel_length ic in let x = really_input_string ic n in close_in ic; Some x with _ -> None) in
+   bump acc "merge_tool_model_compared";
+   match merge_tool_model Wr.oracle_compress_default Wr.oracle_compress_level mf o srcs, real with
+   | Ok (w, _), Some x ->
+     if string_of_nl (writer_bytes w) <> x then
+       fail acc ~kind:"model_mismatch" ~what:"[C04] the file written by mtbl_merge differs from the model of the tool (model/ToolsMerge.v, T04t_end_to_end)"
+         (JO [ "case", Lazy.force case; "model_bytes", JI (List.length (writer_bytes w)); "tool_bytes", JI (String.length x) ])
+   | Ok _, None -> ()      (* reported below: no output table *)
+   | _, _ -> fail acc ~kind:"model_mismatch" ~what:"[C04] the model of mtbl_merge fails an assertion on inputs the theorem T04t_no_assertion_fails covers" (Lazy.force case));
   (match got with
    | None -> fail acc ~kind:"spec_violation" ~what:(Printf.sprintf "[C04] mtbl_merge (exit status %d) left no readable output table" status) (Lazy.force case)
    | Some l ->
